@@ -41,6 +41,15 @@ from collections import Counter
 VERIF = os.path.dirname(os.path.dirname(os.path.abspath(__file__)))
 REPO = os.environ.get('PYWBEM_REPO', '/repo')
 KNOWN_FILE = os.path.join(VERIF, 'known-findings.txt')
+# Runs against another tree than /repo (mutation/seeded-change testing) must
+# not overwrite the evidence and replays of the real tree
+if os.environ.get('VERIF_OUT'):
+    OUT = os.environ['VERIF_OUT']
+elif os.path.realpath(REPO) != '/repo':
+    OUT = os.path.join('/tmp', 'verif_out_' + os.path.basename(
+        os.path.realpath(REPO)))
+else:
+    OUT = VERIF
 NPROC = int(os.environ.get('VERIF_NPROC', '16'))
 
 # The code under test is always imported from the working tree
@@ -439,7 +448,7 @@ def load_known(prop):
 # replay
 
 def write_replay(prop, sig, fail, seed, tier):
-    d = os.path.join(VERIF, 'replays', prop)
+    d = os.path.join(OUT, 'replays', prop)
     os.makedirs(d, exist_ok=True)
     sub = sig.split('/', 1)[0]
     path = os.path.join(d, slug(sig.replace('/', '__'), 120) + '.json')
@@ -448,7 +457,7 @@ def write_replay(prop, sig, fail, seed, tier):
                        tier=tier, detail=fail['detail'],
                        example_repr=fail['example_repr'],
                        example_b64=fail['example_b64']), fp, indent=1)
-    return os.path.relpath(path, VERIF)
+    return os.path.relpath(path, OUT) if OUT == VERIF else path
 
 
 def replay_file(prop, path):
@@ -602,8 +611,8 @@ def run_property(prop, tier, seed, only=None):
                     level='exploration', coverage=coverage,
                     assumptions=list(mod.ASSUMPTIONS), wall_s=round(wall, 2),
                     violations=violations)
-    os.makedirs(os.path.join(VERIF, 'evidence'), exist_ok=True)
-    with open(os.path.join(VERIF, 'evidence', prop + '.json'), 'w',
+    os.makedirs(os.path.join(OUT, 'evidence'), exist_ok=True)
+    with open(os.path.join(OUT, 'evidence', prop + '.json'), 'w',
               encoding='utf-8') as fp:
         json.dump(evidence, fp, indent=1, sort_keys=True, default=str)
 
